@@ -433,7 +433,7 @@ def _fuzz_jobs(ctx, kinds_all):
             cpu_budget=wb)
         add("member", "doc", {"seed": M.SEEDS["doc"][0], "muts": [["olevec", 0x7FFFFFFF]]}, members=1, arch="zip",
             cpu_budget=wb)
-    per_seed = 260 if T else 5
+    per_seed = 420 if T else 5
     for kind in kinds_all:
         seeds = M.SEEDS[kind] if T else M.SEEDS[kind][:2]
         for sid in seeds:
